@@ -11,7 +11,8 @@ CHECKS = {
         text=('Runtime monitoring: every call of sum_product / sum_products / singleton_fgg made by a stratified '
               'generated workload of non-recursive grammars (all structural features of the statement x dense/patterned '
               'weights x 4 semirings x 4 method names x float32/float64) is compared with an exact enumeration of all '
-              'assignments written from the definition; a hook on SumProduct.forward records the per-SCC method. '
+              'assignments written from the definition (rules counted as a multiset: one stratum adds the same rule twice as a copy with '
+              'identical ids); a hook on SumProduct.forward records the per-SCC method. '
               'Exploration-level assurance: held on the generated cases, each feature class reached for every seed by construction.'),
         design_ref='DESIGN.md §4 C01'),
     'C10': dict(
@@ -19,7 +20,9 @@ CHECKS = {
         text=('Runtime monitoring: tree_decomposition with each method, min_fill, quickbb and the bound helpers are called on every labelled '
               'graph with <=5 vertices (exhaustive, 1100 graphs) and on random/disconnected/named-family graphs up to 9 (quick) / 11 (thorough) '
               'vertices in shuffled insertion orders; each result is judged by an independent validator (tree-ness, vertex/edge cover, running '
-              'intersection) and against the exact treewidth from a subset DP. Exploration level; exhaustive: true only for the <=5-vertex bound.'),
+              'intersection) and against the exact treewidth from a subset DP. Call-history stratum: each graph of a corpus on which min_fill is '
+              'suboptimal is first decomposed right after a maximally dense graph with the same (pair-private) vertex names and edge count, '
+              'so that state kept between calls under a cheap fingerprint shows as a wrong width. Exploration level; exhaustive: true only for the <=5-vertex bound.'),
         design_ref='DESIGN.md §4 C10'),
     'C19': dict(
         technique='boundary monitor on scc/nonterminal_graph + reachability-closure oracle; trace checker over solve order (runtime monitoring)',
@@ -111,7 +114,8 @@ CHECKS = {
         text=('Runtime monitoring: random einsum signatures (<= 4 typed indices, <= 3 operands, indices repeated across and within operands, any output '
               'order, zero-size dims) with well-typed patterned operands (sum/product/shared axes, stride-0 views, non-zero defaults, operands sharing '
               'axis objects) are evaluated by the real einsum in 4 semirings, on the equation-reduction path and on the requires_grad path (under '
-              'no_grad), plus mv/mm and the empty operand list; every result is compared with a brute-force nested-loop evaluation. For the Viterbi '
+              'no_grad), plus mv/mm, the empty operand list and chained operations (the result of an earlier mv used as operand against a '
+              'unit axis typed as a one-summand sum); every result is compared with a brute-force nested-loop evaluation. For the Viterbi '
               'variant the pointer tensor must have one entry per summed-out index and, plugged back into the operands, attain the maximum in every '
               'cell. A hook on reduce_equation counts reductions that really dropped a stride-0 dimension.'),
         design_ref='DESIGN.md §4 C07'),
@@ -149,7 +153,8 @@ CHECKS = {
         text=('Runtime monitoring: each generated grammar is realised in 7 presentations (random rule/node/edge insertion orders, explicit vs implicit '
               'ids, consistent renaming of node labels, edge labels and domain values, permutation of domain values with the factor axes) and the '
               'real sum_product (Real fixed-point/newton/linear, Log, Viterbi, Bool), Real gradients and viterbi weights of every presentation are '
-              'compared with the canonical one after permuting back (1e-9). Batches are also executed under PYTHONHASHSEED 0..3 in subprocesses and '
+              'compared with the canonical one after permuting back (1e-9). One stratum is a dense linearly recursive component (4-6 '
+              'nonterminals, several back edges into one of them) on which the block solve has real elimination-order choices. Batches are also executed under PYTHONHASHSEED 0..3 in subprocesses and '
               'compared. Hooks on scc, _order_nonterminals and sum_product_edges record the orders actually taken; the run is inconclusive unless at '
               'least half of the grammars that offer a choice were seen under >= 2 distinct orders and the hash seeds changed some order.'),
         design_ref='DESIGN.md §4 C12'),
